@@ -158,7 +158,8 @@ CHECKS = {
           "return of the listing passing through the frontend, and the "
           "classic reader's search list being built in search-path order; no locally created include vector is lent to a recorder and "
           "then dropped (R18.e); set_search_paths stores the list it is given without filtering or reordering (R18.a.store). "
-          "Found F2 (embed-file unlisted), repaired by a fix: commit.",
+          "the include list of a program nested in an expression is copied into the enclosing one (R18.f). "
+          "Found F2 (embed-file unlisted) and F28 (includes of nested mod forms unlisted), each repaired by a fix: commit.",
   "note": "Scope: the modern preprocessor (all dialect sigils and the listing itself) plus the order of the classic search list. "
           "The classic `_read` operator's own resolution loop is CLVM data (stage_2 reader is Rust: first-match walk not decided). Trusts rustc MIR construction; value flow is local-level.",
   "technique": "MIR pairing/dominance rules + value flow + who-may-call",
